@@ -221,7 +221,7 @@ def ctrue : Cbor := .simple 21
 def cnull : Cbor := .simple 22
 def ofBool (b : Bool) : Cbor := if b then ctrue else cfalse
 def ofInt (i : Int) : Cbor := if i ≥ 0 then .uint i.toNat else .nint (-1 - i).toNat
-def ofText (s : String) : Cbor := .text s.toUTF8.toList
+def ofText (s : String) : Cbor := .text (asciiBytes s)
 
 /-- map lookup by key (first match) -/
 def lookup (k : Cbor) : List (Cbor × Cbor) → Option Cbor
